@@ -20,7 +20,8 @@ CLASSES = [
     "connect", "connect_opts", "close", "heartbeat", "reg", "offline", "rrs_other",
     "data_other", "ack_connect", "ack_close", "ack_data", "reject",
 ]
-EXTRA_CLASSES = ["data_t0reg"]
+EXTRA_CLASSES = ["data_t0reg", "reg_on_ack", "offline_on_ack"]
+WANTS_ANSWER = {"reg", "data_t0reg", "reg_on_ack"}
 NEEDS_ACK = {"connect", "connect_opts", "close", "reg", "offline", "rrs_other", "data_other", "data_t0reg"}
 HDAP_SAMPLES = [
     "0980a10022000000010a01b2070a03640e4f004c004900560045005200200054004500530054007a03",
@@ -72,89 +73,88 @@ def parse_rrs_answer(d: bytes):
 
 
 def _opts(rnd):
-    from okdmr.dmrlib.hytera.pdu.hstrp import HSTRPOptions, HSTRPOptionType
-
-    o = HSTRPOptions()
-    o.add_option(HSTRPOptionType.DeviceID, rnd.getrandbits(32).to_bytes(4, "big"))
+    """HSTRP option TLV chain, encoded by hand: (command | 0x80 unless last, length, data)"""
+    opts = [(3, rnd.getrandbits(32).to_bytes(4, "big"))]  # DeviceID
     if rnd.random() < 0.7:
-        o.add_option(HSTRPOptionType.ChannelID, bytes([rnd.randrange(1, 3)]))
+        opts.append((4, bytes([rnd.randrange(1, 3)])))  # ChannelID
     if rnd.random() < 0.2:
-        o.add_option(HSTRPOptionType.RTP, b"")
-    return o
+        opts.append((1, b""))  # RTP, zero-length
+    out = b""
+    for i, (cmd, data) in enumerate(opts):
+        out += bytes([cmd | (0x80 if i < len(opts) - 1 else 0), len(data)]) + data
+    return out
+
+
+def hdap_checksum(checked: bytes) -> int:
+    return (((sum(checked) & 0xFF) ^ 0xFF) + 0x33) & 0xFF
+
+
+def rrs_hdap(opcode: int, radio_id: int, reliable: bool) -> bytes:
+    """| service (0x11, 0x80 = reliable) | opcode (2) | payload length (2) | 10.<id> | checksum | 0x03 |"""
+    checked = bytes([0x00, opcode, 0x00, 0x04, 0x0A]) + radio_id.to_bytes(3, "big")
+    return bytes([0x11 | (0x80 if reliable else 0)]) + checked + bytes([hdap_checksum(checked), 0x03])
+
+
+def hstrp(type_byte: int, sn: int, options: bytes = b"", payload: bytes = b"", version: int = 0) -> bytes:
+    return b"2B" + bytes([version, type_byte]) + sn.to_bytes(2, "big") + options + payload
+
+
+T_OPT, T_REJ, T_CLOSE, T_CONN, T_HB, T_ACK = 0x20, 0x10, 0x08, 0x04, 0x02, 0x01
 
 
 def build(cls, rnd, radios):
-    """returns (bytes, meta) for a well-formed member of class cls"""
-    from okdmr.dmrlib.hytera.pdu.hdap import HDAP
-    from okdmr.dmrlib.hytera.pdu.hstrp import HSTRP, HSTRPPacketType as PT
-    from okdmr.dmrlib.hytera.pdu.radio_ip import RadioIP
-    from okdmr.dmrlib.hytera.pdu.radio_registration_service import RadioRegistrationService as RRS, RRSTypes
-
+    """returns (bytes, meta) for a well-formed member of class cls.  Encoded by an INDEPENDENT byte-level encoder (the peer's
+    implementation), not by the library: the system under test then runs in a process that imported nothing but the handler module
+    (selftest/encoders.py checks this encoder byte for byte against the library's on the unchanged tree)"""
     sn = rnd.choice([0, 1, 0xFFFF, 0xFFFE, rnd.randrange(65536), rnd.randrange(65536)])
     meta = {"sn": sn, "optlen": 0}
+    version = 0
 
     def rrs(op):
         rid = rnd.choice(radios)
         meta["radio"] = rid
-        return RRS(opcode=op, radio_ip=RadioIP(radio_id=rid), is_reliable=rnd.random() < 0.2)
+        return rrs_hdap(op, rid, rnd.random() < 0.2)
 
-    def withopts(**kw):
+    def opts():
         o = _opts(rnd)
         meta["optlen"] = len(o)
-        return HSTRP(PT(have_options=True, **kw), sn=sn, options=o, payload=kw.pop("payload", None))
+        return o
 
+    if cls not in ("connect", "close", "heartbeat", "ack_connect", "ack_close") and rnd.random() < 0.15:
+        version = rnd.choice([1, 2, 0x7F, 0xFF])  # legal, unusual: the version octet is a field like any other
     if cls == "connect":
         meta["sn"] = 0
-        p = HSTRP(PT(is_connect=True), sn=0)
+        d = hstrp(T_CONN, 0)
     elif cls == "connect_opts":
-        o = _opts(rnd)
-        meta["optlen"] = len(o)
-        p = HSTRP(PT(is_connect=True, have_options=True), sn=sn, options=o)
+        d = hstrp(T_CONN | T_OPT, sn, opts(), version=version)
     elif cls == "close":
         meta["sn"] = 0
-        p = HSTRP(PT(is_close=True), sn=0)
+        d = hstrp(T_CLOSE, 0)
     elif cls == "heartbeat":
         meta["sn"] = 0
-        p = HSTRP(PT(is_heartbeat=True), sn=0)
+        d = hstrp(T_HB, 0)
     elif cls in ("reg", "offline", "rrs_other"):
-        op = {"reg": RRSTypes.RadioRegistrationRequest, "offline": RRSTypes.RadioGoingOffline,
-              "rrs_other": RRSTypes.RegistrationStatusCheckRequest}[cls]
-        o = _opts(rnd)
-        meta["optlen"] = len(o)
-        p = HSTRP(PT(have_options=True), sn=sn, options=o, payload=rrs(op))
+        d = hstrp(T_OPT, sn, opts(), rrs({"reg": 0x03, "offline": 0x01, "rrs_other": 0x02}[cls]), version)
+    elif cls in ("reg_on_ack", "offline_on_ack"):
+        # "if type=ack, payload is filled with service messages" (HSTRP doc): a registration / going-offline message riding on an ack
+        d = hstrp(T_OPT | T_ACK, sn, opts(), rrs(0x03 if cls == "reg_on_ack" else 0x01), version)
     elif cls == "data_other":
-        o = _opts(rnd)
-        meta["optlen"] = len(o)
-        p = HSTRP(PT(have_options=True), sn=sn, options=o,
-                  payload=HDAP.from_bytes(bytes.fromhex(rnd.choice(HDAP_SAMPLES))))
-        try:  # an HDAP the library cannot decode again is not a well-formed member (C12's subject)
-            ok = isinstance(HSTRP.from_bytes(p.as_bytes()).payload, HDAP)
-        except Exception:
-            ok = False
-        if not ok:
-            p = HSTRP(PT(have_options=True), sn=sn, options=o, payload=rrs(RRSTypes.RegistrationStatusCheckRequest))
+        d = hstrp(T_OPT, sn, opts(), bytes.fromhex(rnd.choice(HDAP_SAMPLES)), version)
     elif cls == "data_t0reg":
-        p = HSTRP(PT(), sn=sn, payload=rrs(RRSTypes.RadioRegistrationRequest))
+        d = hstrp(0x00, sn, b"", rrs(0x03), version)
     elif cls == "ack_connect":
         meta["sn"] = 0
-        p = HSTRP(PT(is_connect=True, is_ack=True), sn=0)
+        d = hstrp(T_CONN | T_ACK, 0)
     elif cls == "ack_close":
         meta["sn"] = 0
-        p = HSTRP(PT(is_close=True, is_ack=True), sn=0)
+        d = hstrp(T_CLOSE | T_ACK, 0)
     elif cls == "ack_data":
-        if rnd.random() < 0.5:
-            o = _opts(rnd)
-            meta["optlen"] = len(o)
-            p = HSTRP(PT(have_options=True, is_ack=True), sn=sn, options=o)
-        else:
-            p = HSTRP(PT(is_ack=True), sn=sn)
+        d = hstrp(T_OPT | T_ACK, sn, opts(), version=version) if rnd.random() < 0.5 else hstrp(T_ACK, sn, version=version)
     elif cls == "reject":
-        p = HSTRP(PT(is_reject=True), sn=sn)
+        d = hstrp(T_REJ, sn, version=version)
     else:
         raise ValueError(cls)
-    if cls not in ("connect", "close", "heartbeat", "ack_connect", "ack_close") and rnd.random() < 0.15:
-        p.version = rnd.choice([1, 2, 0x7F, 0xFF])  # legal, unusual: the version octet is a field like any other
-    return p.as_bytes(), meta
+    return d, meta
 
 
 # ------------------------------------------------------------------ the check
@@ -184,21 +184,29 @@ class C17(Check):
     ]
 
     def preload(self):
-        from checks import c19
+        self.preload_group(0)
+        self.preload_group(1)
 
-        c19.preload_cotenant()
-        import okdmr.dmrlib.protocols.hytera.rrs_datagram_protocol  # noqa
-        import okdmr.dmrlib.hytera.pdu.text_message_protocol  # noqa
-        import okdmr.dmrlib.hytera.pdu.location_protocol  # noqa
-        import okdmr.dmrlib.hytera.pdu.radio_control_protocol  # noqa
+    def arm_groups(self, tier):
+        # group 0 runs in processes that imported nothing but what a minimal application imports (the handler module); group 1 in
+        # processes that imported the whole library (and the co-tenant registry) -- import history is a configuration dimension
+        return [{"min-imports"}, {a for a, _ in self.arms(tier)} - {"min-imports"}]
+
+    def preload_group(self, i):
+        if i == 0:
+            import okdmr.dmrlib.protocols.hytera.rrs_datagram_protocol  # noqa
+        else:
+            from checks import c19
+
+            c19.preload_cotenant()
 
     def budget(self, tier):
         return 150.0 if tier == "quick" else 3000.0
 
     def arms(self, tier):
         if tier == "quick":
-            return [("exh4", 12 + 144 + 1728 + 20736), ("A-clean", 3000), ("A-faults", 9000), ("B-clean", 800), ("B-faults", 2400)]
-        return [("exh5", 12 + 144 + 1728 + 20736 + 248832), ("A-clean", 40000), ("A-faults", 160000),
+            return [("min-imports", 1500), ("exh4", 12 + 144 + 1728 + 20736), ("A-clean", 3000), ("A-faults", 9000), ("B-clean", 800), ("B-faults", 2400)]
+        return [("min-imports", 20000), ("exh5", 12 + 144 + 1728 + 20736 + 248832), ("A-clean", 40000), ("A-faults", 160000),
                 ("B-clean", 10000), ("B-faults", 40000), ("exh6", 2985984)]
 
     # -------------------------------------------------------------- generation
@@ -214,6 +222,8 @@ class C17(Check):
         }
         if arm.startswith("exh"):
             return self._gen_exh(arm, index, w, knobs)
+        if arm == "min-imports":
+            arm = ["A-clean", "A-faults", "A-faults", "B-faults"][index % 4]
         topo = arm[0]
         faults = arm.endswith("faults")
         knobs["topology"] = topo
@@ -280,10 +290,10 @@ class C17(Check):
             ops.append(op)
         ops.sort(key=lambda o: (o["t"], o["prio"]))
         case = {"knobs": knobs, "ops": ops, "dropped": dropped}
-        if k.random() < 0.08:
+        if k.random() < 0.08 and "checks.c19" in __import__("sys").modules:  # never in the minimal-import group
             from checks import c19
 
-            case["cotenant"] = c19.gen_cotenant(streams["cotenant"])  # the rest of the application uses other parts of the library
+            case["cotenant"] = c19.gen_cotenant(streams["cotenant"])  # the rest of the application uses (and imports) other parts of the library
         if topo == "B":
             tq = (ops[-1]["t"] if ops else 0.0) + w.choice([0.01, 1.0, 12.0])
             ops.append({"kind": "quiet", "t": round(tq, 6), "prio": 0})
@@ -634,7 +644,7 @@ class _Run:
             # well-formed acks (no payload) must cause no datagram at all; a *corrupted* datagram that happens to carry the
             # ack bit together with an RRS request payload may still get the RRS-level answer to that request (that is not
             # an answer to the acknowledgement), but never an HSTRP-level answer (ack / heartbeat)
-            bad = out if label is not None else [(o, a) for o, a in out if parse_rrs_answer(o) is None]
+            bad = out if (label is not None and label not in WANTS_ANSWER) else [(o, a) for o, a in out if parse_rrs_answer(o) is None]
             if bad:
                 res.violate("C17.3 ack-answered", label or "ack-bit-set", f"received {data.hex()} (ack bit set) and sent {[o.hex() for o, _ in bad]}", at=at)
         # rule 4: heartbeat
@@ -657,18 +667,20 @@ class _Run:
                 out = out_all
         # rule 2/6: positive rules for well-formed, unmodified members of a class
         is_rrs = hasattr(h, "registry")
-        if label in NEEDS_ACK:
+        if label in NEEDS_ACK or label in WANTS_ANSWER:
             optlen = meta.get("optlen", 0)
             acks = [o for o, _ in out if (classify(o) or {}).get("ack")]
             others = [o for o, _ in out if not (classify(o) or {}).get("ack")]
-            if len(acks) != 1:
+            if label not in NEEDS_ACK:
+                pass  # an acknowledgement carrying a request: rule 3 already forbids any HSTRP-level answer
+            elif len(acks) != 1:
                 res.violate("C17.2 exactly-one-ack", label, f"{len(acks)} acks for {data.hex()}: {[o.hex() for o, _ in out]}", at=at)
             else:
                 a = acks[0]
                 ca = classify(a)
                 if ca["rej"] or ca["sn"] != c["sn"] or len(a) != 6 + optlen or a[6:] != data[6:6 + optlen]:
                     res.violate("C17.2 ack-shape", label, f"ack {a.hex()} for {data.hex()} (want ack bit, no reject, same S/N, length {6 + optlen})", at=at)
-            want_answer = is_rrs and label in ("reg", "data_t0reg")
+            want_answer = is_rrs and label in WANTS_ANSWER
             if want_answer:
                 if len(others) != 1:
                     res.violate("C17.6 registration-answer", label, f"{len(others)} answers for {data.hex()}: {[o.hex() for o in others]}", at=at)
@@ -700,9 +712,9 @@ class _Run:
         # rule 7: registry
         if is_rrs:
             reg_now = {k: v.name for k, v in h.registry.items()}
-            if label in ("reg", "data_t0reg", "offline"):
+            if label in ("reg", "data_t0reg", "offline", "reg_on_ack", "offline_on_ack"):
                 ip = "10.%d.%d.%d" % tuple(meta["radio"].to_bytes(3, "big"))
-                new = "Offline" if label == "offline" else "Online"
+                new = "Offline" if label.startswith("offline") else "Online"
                 if m["registry"].get(ip) == new:
                     res.probe("duplicate_registration_or_offline")
                 elif m["registry"].get(ip) == "Offline" and new == "Online":
